@@ -868,7 +868,8 @@ def array_value(sym, seed: int):
     return out
 
 
-def np_values(exprs: list, seed: int, cse: bool = False, events=None, real_input: bool = False):
+def np_values(exprs: list, seed: int, cse: bool = False, events=None, real_input: bool = False,
+              overrides=None):
     """("ok", [arrays]) or ("error", "<Type>: message") for lambdify on the lattice."""
     import numpy as np  # noqa: PLC0415
     import sympy as sp  # noqa: PLC0415
@@ -885,7 +886,9 @@ def np_values(exprs: list, seed: int, cse: bool = False, events=None, real_input
     args = []
     for s in syms:
         s_orig = values[s]
-        if is_int_symbol(s_orig):
+        if overrides and s_orig.name in overrides:
+            args.append(overrides[s_orig.name])
+        elif is_int_symbol(s_orig):
             args.append(int(scalar_value(s_orig, 0, seed)))
         else:
             vals = [float(scalar_value(s_orig, j, seed)) for j in range(N_EVENTS)]
